@@ -2,12 +2,18 @@
 (* C09, binding B (and the observations of binding A): what secure
    interpreters were seen doing is stepped through the Secure model.
 
-   A `new` event starts an interpreter (Interpreter(secure=TRUE, legacy));
-   the model's flag is TRUE from then on (Secure!FlagImmutable).  Every `obs`
-   event is what the harness observed after one thing was done to that
-   interpreter (its construction, one replayed model action, one invocation
-   of a module symbol with path-like / command-like arguments, one direct
-   call of the binder):
+   A `new` event starts an interpreter: `via` says how it was obtained - the
+   constructor Interpreter(secure, legacy) ("ctor") or a command line front
+   end ("run", "repl") - and `opts` which of the options secure / legacy were
+   given.  The model's flag is SecureOps!CliSecure(opts) from then on
+   (Secure!FlagImmutable, Secure!FlagIsConfig); only interpreters that were
+   asked to be secure are judged.  Every `obs` event is what the harness
+   observed after one thing was done to that interpreter (its construction -
+   possibly with other interpreters constructed by the host before or after
+   it -, one replayed model action, one invocation of a module symbol with
+   the argument tuples of SecureOps!CallShapes, one `require` of a
+   SecureOps!ForeignSpecs module spec, one direct call of the binder, one run
+   of a probe program by a front end):
      os     - the operating-system events recorded while it ran
               (audit hook + stat-family wrappers): [kind, cls, req]
      flag   - checkerlang_secure_mode in the base environment afterwards
@@ -15,6 +21,7 @@
               among the function values reachable from all environments,
               module environments, objects, closures and the returned value
      canary - the canary directory is unchanged
+     ran    - a script file that is no module (the canary's script) was run
    An observation the property forbids is reported (@@BAD@@ with the clause)
    and the walk goes on, so every offending event is listed. *)
 EXTENDS SecureOps, TLC, Json, IOUtils
@@ -35,13 +42,16 @@ OsOk(o) == PermittedOs(o.kind, o.cls, o.req)
 Step ==
   /\ l <= Len(Trace)
   /\ l' = l + 1
-  /\ CASE Ev.op = "new" -> flag' = TRUE
+  /\ CASE Ev.op = "new" -> flag' = CliSecure(Elems(Ev.opts))
        [] Ev.op = "obs" ->
             /\ flag' = flag                                   \* FlagImmutable
-            /\ Check(Ev.flag = (IF flag THEN "TRUE" ELSE "FALSE"), "flag-changed")
-            /\ Check(Ev.nbad = 0, "forbidden-native-reachable")   \* NoInsecureBound
-            /\ Check(Ev.canary, "canary-changed")
-            /\ Check(\A i \in DOMAIN Ev.os : OsOk(Ev.os[i]), "os-event")
+            /\ flag =>
+                 /\ Check(Ev.flag = "TRUE",                     \* FlagIsConfig / FlagImmutable
+                          IF Ev.phase = "cli" THEN "front-end-not-secure" ELSE "flag-changed")
+                 /\ Check(Ev.nbad = 0, "forbidden-native-reachable")   \* NoInsecureBound
+                 /\ Check(Ev.canary, "canary-changed")
+                 /\ Check(~Ev.ran, "script-file-run")
+                 /\ Check(\A i \in DOMAIN Ev.os : OsOk(Ev.os[i]), "os-event")
        [] OTHER -> flag' = flag /\ Bad("unknown-op")
   /\ (l = Len(Trace) => PrintT("@@DONE@@" \o ToJson([n |-> l])))
 
